@@ -220,12 +220,11 @@ pub fn c20_x_slot_serial_orders4() { serial_orders(4); }
 #[kani::proof]
 #[kani::unwind(6)]
 pub fn c20_w_twin_second_init_wins() {
+    // false claim: the last initialisation is the one observers see (no event traffic: see above)
     reset();
-    // false claim: the last initialisation is the one observers see
     let slot = AmbientSlot::new();
     let _ = slot.init(config(1));
     let _ = slot.init(config(2));
-    slot.get().emit(Event::new(Path::new_raw("m"), Template::literal("t"), Empty, Empty));
-    unsafe { assert!(LAST_EMITTER == 2); }
+    assert!(slot.get().rng().gen_u64() == Some(2));
     core::mem::forget(slot);
 }
